@@ -26,6 +26,7 @@ class CBus:
         self.choices = 0          # scheduling decisions with more than one candidate
         self.max_pending = 0
         self.errors = []
+        self.events = []          # every delivery in the order it happened: ("deliver", topic, message); harness/slevel.py adds tick marks
 
     # -- contract
     def _ensure_pump(self):
@@ -102,6 +103,7 @@ class CBus:
             if self.per_topic:
                 c.busy_topics.add(t)
             self.delivered += 1
+            self.events.append(("deliver", t, msg))
             asyncio.get_event_loop().create_task(self._run(c, msg, t))
             await asyncio.sleep(0)
 
